@@ -5,8 +5,9 @@ use crate::rng::Rng;
 use crate::Found;
 use redis_sim::redis::SDS;
 use redis_sim::replication::anti_entropy::{KeyDigest, MerkleNode, StateDigest};
-use redis_sim::replication::lattice::{GCounter, LamportClock, ReplicaId};
-use redis_sim::replication::state::{CrdtValue, ReplicatedValue};
+use redis_sim::replication::lattice::{GCounter, GSet, LamportClock, LwwRegister, ORSet, PNCounter, ReplicaId, VectorClock};
+use redis_sim::replication::state::{CrdtValue, ReplicatedValue, ShardReplicaState};
+use redis_sim::replication::ConsistencyLevel;
 use std::collections::HashMap;
 
 fn lc(t: u64, r: u64) -> LamportClock { LamportClock { time: t, replica_id: ReplicaId(r) } }
@@ -274,10 +275,257 @@ fn check_unequal_states(rng: &mut Rng, iters: u64) -> Option<Found> {
     None
 }
 
+// ===================== unit digest_value (C18): the value hash covers the WHOLE replicated value =====================
+// "never a false in sync": two states that differ in ONE observational component of ONE value (a hash field, a field
+// tombstone, a counter slot, a set element / tag, the expiry, a vector-clock entry, the replication factor) must have
+// different digests; "never a perpetual false divergent": observationally equal states built in different insertion /
+// merge orders (fresh hash tables, zero counter slots, merge(a,b) vs merge(b,a)) must have equal digests.
+// Values are generated from DESCRIPTORS so that the same observational content can be built along different routes.
+
+#[derive(Clone, Debug)]
+struct FieldD { name: String, val: Option<Vec<u8>>, t: u64, r: u64, tomb: bool }
+#[derive(Clone, Debug)]
+enum BodyD {
+    Lww { val: Option<Vec<u8>>, tomb: bool },
+    G(Vec<(u64, u64)>),
+    PN(Vec<(u64, u64)>, Vec<(u64, u64)>),
+    GS(Vec<String>),
+    /// adds in order (element, adding replica), then the elements removed afterwards
+    OR(Vec<(String, u64)>, Vec<String>),
+    H(Vec<FieldD>),
+}
+#[derive(Clone, Debug)]
+struct ValD { body: BodyD, t: u64, r: u64, expiry: Option<u64>, rf: Option<u8>, vc: Option<Vec<(u64, u64)>> }
+
+fn gen_vald(rng: &mut Rng, kind: u64) -> ValD {
+    let t = 10 + rng.below(40);
+    let r = 1 + rng.below(3);
+    let slots = |rng: &mut Rng| -> Vec<(u64, u64)> { let mut v = Vec::new(); for rid in 1..=4u64 { if rng.chance(2, 3) { v.push((rid, 1 + rng.below(9))); } } v };
+    let body = match kind {
+        0 => BodyD::Lww { val: Some(format!("v{}_{}", t, r).into_bytes()), tomb: false },
+        1 => BodyD::Lww { val: None, tomb: true },
+        2 => { let n = 1 + rng.below(5); BodyD::H((0..n).map(|i| { let tomb = rng.chance(1, 4); let ft = 1 + rng.below(t - 1); FieldD { name: format!("f{}", i), val: if tomb { None } else { Some(format!("w{}_{}", i, ft).into_bytes()) }, t: ft, r: 1 + rng.below(3), tomb } }).collect()) }
+        3 => BodyD::G(slots(rng)),
+        4 => BodyD::PN(slots(rng), slots(rng)),
+        5 => { let n = rng.below(5); BodyD::GS((0..n).map(|i| format!("m{}", i)).collect()) }
+        _ => {
+            let n = 1 + rng.below(6);
+            let adds: Vec<(String, u64)> = (0..n).map(|_| (format!("e{}", rng.below(4)), 1 + rng.below(3))).collect();
+            let removed = if rng.chance(1, 3) { vec![adds[0].0.clone()] } else { Vec::new() };
+            BodyD::OR(adds, removed)
+        }
+    };
+    ValD { body, t, r, expiry: if rng.chance(1, 2) { Some(1000 * (1 + rng.below(9))) } else { None }, rf: if rng.chance(1, 4) { Some(1 + rng.below(4) as u8) } else { None }, vc: if rng.chance(1, 3) { Some(slots(rng)) } else { None } }
+}
+
+fn counter_from(rng: &mut Rng, slots: &[(u64, u64)], route: u64) -> GCounter {
+    let mut g = GCounter::new();
+    let order = shuffled(rng, slots.len());
+    if route % 3 == 1 { g.increment_by(ReplicaId(77), 0); } // a zero slot: observationally absent
+    match route % 3 {
+        2 => { // two halves merged (merge builds a fresh table)
+            let mut a = GCounter::new(); let mut b = GCounter::new();
+            for (n, &i) in order.iter().enumerate() { if n % 2 == 0 { a.increment_by(ReplicaId(slots[i].0), slots[i].1) } else { b.increment_by(ReplicaId(slots[i].0), slots[i].1) } }
+            g = if rng.chance(1, 2) { a.merge(&b) } else { b.merge(&a) };
+        }
+        _ => { for &i in &order { g.increment_by(ReplicaId(slots[i].0), slots[i].1); } }
+    }
+    g
+}
+
+/// build the value a descriptor denotes; `route` selects insertion order / table capacity / merge order
+fn build_val(rng: &mut Rng, d: &ValD, route: u64) -> ReplicatedValue {
+    let crdt = match &d.body {
+        BodyD::Lww { val, tomb } => CrdtValue::Lww(LwwRegister { value: val.clone().map(SDS::new), timestamp: lc(d.t, d.r), tombstone: *tomb }),
+        BodyD::G(s) => CrdtValue::GCounter(counter_from(rng, s, route)),
+        BodyD::PN(p, n) => {
+            let mut c = PNCounter::new();
+            let (op, on) = (shuffled(rng, p.len()), shuffled(rng, n.len()));
+            if route % 2 == 1 { for &i in &on { c.decrement_by(ReplicaId(n[i].0), n[i].1); } for &i in &op { c.increment_by(ReplicaId(p[i].0), p[i].1); } c.increment_by(ReplicaId(78), 0); }
+            else { for &i in &op { c.increment_by(ReplicaId(p[i].0), p[i].1); } for &i in &on { c.decrement_by(ReplicaId(n[i].0), n[i].1); } }
+            CrdtValue::PNCounter(if route % 3 == 2 { c.merge(&PNCounter::new()) } else { c })
+        }
+        BodyD::GS(e) => {
+            let mut g: GSet<String> = GSet::new();
+            for &i in &shuffled(rng, e.len()) { g.add(e[i].clone()); }
+            CrdtValue::GSet(if route % 3 == 2 { GSet::new().merge(&g) } else { g })
+        }
+        BodyD::OR(adds, removed) => {
+            // tags are (replica, per-replica sequence): the adds keep their order; the routes differ in how the state is assembled
+            let cut = if adds.is_empty() { 0 } else { rng.below(adds.len() as u64 + 1) as usize };
+            let mut a: ORSet<String> = ORSet::new();
+            for (e, r) in &adds[..cut] { a.add(e.clone(), ReplicaId(*r)); }
+            let mut b = a.clone();
+            for (e, r) in &adds[cut..] { b.add(e.clone(), ReplicaId(*r)); }
+            let mut o = match route % 3 { 0 => b, 1 => a.merge(&b), _ => b.merge(&a) };
+            for e in removed { o.remove(e); }
+            CrdtValue::ORSet(o)
+        }
+        BodyD::H(fields) => {
+            let mut m: HashMap<String, LwwRegister<SDS>> = if route % 3 == 1 { HashMap::with_capacity(256) } else { HashMap::new() };
+            if route % 3 == 2 { for i in 0..30 { m.insert(format!("__c{}", i), LwwRegister { value: None, timestamp: lc(1, 1), tombstone: true }); } }
+            for &i in &shuffled(rng, fields.len()) { let f = &fields[i]; m.insert(f.name.clone(), LwwRegister { value: f.val.clone().map(SDS::new), timestamp: lc(f.t, f.r), tombstone: f.tomb }); }
+            if route % 3 == 2 { for i in 0..30 { m.remove(&format!("__c{}", i)); } }
+            CrdtValue::Hash(m)
+        }
+    };
+    let vector_clock = d.vc.as_ref().map(|slots| {
+        let mut vc = VectorClock::new();
+        let mut todo: Vec<u64> = Vec::new();
+        for (rid, n) in slots { for _ in 0..*n { todo.push(*rid); } }
+        for &i in &shuffled(rng, todo.len()) { vc.increment(ReplicaId(todo[i])); }
+        if route % 2 == 1 { vc.merge(&VectorClock::new()) } else { vc }
+    });
+    ReplicatedValue { crdt, vector_clock, expiry_ms: d.expiry, timestamp: lc(d.t, d.r), replication_factor: d.rf }
+}
+
+/// change exactly ONE observational component; the outer stamp stays (the replica never saw the write that made the difference)
+fn mutate_vald(rng: &mut Rng, d: &ValD) -> (ValD, String) {
+    let mut m = d.clone();
+    let bump = |v: &mut Vec<(u64, u64)>, rng: &mut Rng| -> String {
+        if !v.is_empty() && rng.chance(1, 2) { let i = rng.below(v.len() as u64) as usize; v[i].1 += 1; format!("slot of replica {} is {} instead of {}", v[i].0, v[i].1, v[i].1 - 1) }
+        else { let rid = 5 + rng.below(3); v.push((rid, 1 + rng.below(5))); format!("an extra slot for replica {}", rid) }
+    };
+    for _ in 0..20 {
+        match rng.below(8) {
+            0 => { m.expiry = match m.expiry { None => Some(5000), Some(e) => if rng.chance(1, 3) { None } else { Some(e + 1) } }; return (m.clone(), format!("expiry {:?} instead of {:?}", m.expiry, d.expiry)); }
+            1 => { let mut v = m.vc.clone().unwrap_or_default(); let what = bump(&mut v, rng); m.vc = Some(v); return (m, format!("vector clock: {}{}", what, if d.vc.is_none() { " (none on the other side)" } else { "" })); }
+            2 => { m.rf = match m.rf { None => Some(2), Some(x) => Some(x + 1) }; return (m.clone(), format!("replication factor {:?} instead of {:?}", m.rf, d.rf)); }
+            _ => {}
+        }
+        match &mut m.body {
+            BodyD::H(f) => {
+                let t_max = d.t;
+                match rng.below(4) {
+                    0 => { let name = format!("g{}", f.len()); f.push(FieldD { name: name.clone(), val: Some(b"extra".to_vec()), t: 1 + rng.below(t_max - 1), r: 1 + rng.below(3), tomb: false }); return (m.clone(), format!("hash holds one more field {:?} (older than the value's stamp: the other replica never received it)", name)); }
+                    1 if f.len() > 1 => { let x = f.remove(0); return (m.clone(), format!("hash lacks field {:?}", x.name)); }
+                    2 => { if let Some(x) = f.iter_mut().find(|x| !x.tomb) { x.tomb = true; x.val = None; x.t = (x.t + 1).min(t_max); let n = x.name.clone(); return (m.clone(), format!("field {:?} is tombstoned (HDEL) instead of live", n)); } }
+                    _ => { if let Some(x) = f.iter_mut().find(|x| !x.tomb) { x.val = Some(b"rewritten".to_vec()); x.t = (x.t + 1).min(t_max); x.r = x.r % 3 + 1; let n = x.name.clone(); return (m.clone(), format!("field {:?} holds another write (other stamp and payload)", n)); } }
+                }
+            }
+            BodyD::G(s) => { let w = bump(s, rng); return (m, format!("gcounter: {}", w)); }
+            BodyD::PN(p, n) => { let neg = rng.chance(1, 2); let w = bump(if neg { n } else { p }, rng); return (m, format!("pncounter {} half: {}", if neg { "negative" } else { "positive" }, w)); }
+            BodyD::GS(e) => { let x = format!("x{}", e.len()); e.push(x.clone()); return (m, format!("gset holds one more element {:?}", x)); }
+            BodyD::OR(adds, removed) => {
+                if rng.chance(1, 2) || !removed.is_empty() { let x = (format!("e{}", rng.below(6)), 1 + rng.below(3)); adds.push(x.clone()); removed.retain(|e| *e != x.0); return (m.clone(), format!("orset saw one more add of {:?} by replica {}", x.0, x.1)); }
+                else { let x = adds[adds.len() - 1].0.clone(); removed.push(x.clone()); return (m.clone(), format!("orset element {:?} was removed", x)); }
+            }
+            BodyD::Lww { .. } => {}
+        }
+    }
+    m.expiry = Some(d.expiry.unwrap_or(0) + 7);
+    (m.clone(), format!("expiry {:?} instead of {:?}", m.expiry, d.expiry))
+}
+
+fn show_vald(d: &ValD) -> String {
+    let body = match &d.body {
+        BodyD::Lww { val, tomb } => format!("Lww(val={:?}, tombstone={})", val.as_ref().map(|v| String::from_utf8_lossy(v).to_string()), tomb),
+        BodyD::G(s) => format!("GCounter{:?}", s),
+        BodyD::PN(p, n) => format!("PNCounter(+{:?}, -{:?})", p, n),
+        BodyD::GS(e) => format!("GSet{:?}", e),
+        BodyD::OR(a, r) => format!("ORSet(adds={:?}, then removed={:?})", a, r),
+        BodyD::H(f) => format!("Hash{{{}}}", f.iter().map(|x| format!("{}{}@({},{})", x.name, if x.tomb { "[tombstone]".to_string() } else { format!("={:?}", x.val.as_ref().map(|v| String::from_utf8_lossy(v).to_string()).unwrap_or_default()) }, x.t, x.r)).collect::<Vec<_>>().join(", ")),
+    };
+    format!("{} stamp=({},{}) expiry={:?} rf={:?} vc={:?}", body, d.t, d.r, d.expiry, d.rf, d.vc)
+}
+
+/// the run of DESIGN.md §7.2: two connected replicas, one delta lost, anti-entropy compares digests
+fn scenario_lost_delta() -> Option<Found> {
+    let mut a = ShardReplicaState::new(ReplicaId(1), ConsistencyLevel::Eventual);
+    let mut b = ShardReplicaState::new(ReplicaId(2), ConsistencyLevel::Eventual);
+    for i in 0..3 { let d = a.record_write(format!("warm{}", i), SDS::from_str("x"), None); b.apply_remote_delta(d); }
+    let lost = a.record_hash_write("h".to_string(), vec![("f".to_string(), SDS::from_str("1"))]);   // A: HSET h f 1 - this delta never reaches B
+    for i in 0..2 { let d = b.record_write(format!("warmb{}", i), SDS::from_str("y"), None); a.apply_remote_delta(d); }
+    let d = b.record_hash_write("h".to_string(), vec![("g".to_string(), SDS::from_str("2"))]);      // B: HSET h g 2 - reaches A
+    a.apply_remote_delta(d);
+    let (va, vb) = (a.get_replicated("h")?.clone(), b.get_replicated("h")?.clone());
+    let (fa, fb) = (va.hash_get("f").is_some(), vb.hash_get("f").is_some());
+    let (da, db) = (StateDigest::from_state(&a.replicated_keys, ReplicaId(1), 1, 4), StateDigest::from_state(&b.replicated_keys, ReplicaId(2), 1, 4));
+    if fa != fb && (!da.differs_from(&db) || da.divergent_buckets(&db).is_empty() || KeyDigest::new("h", &va).value_hash == KeyDigest::new("h", &vb).value_hash) {
+        return Some(Found {
+            input: format!("replica A: HSET h f 1 (stamp ({},{}); the delta to B is lost); replica B: HSET h g 2, delta applied on A. A holds h = {} ; B holds h = {}; both run StateDigest::from_state(depth 4)", lost.value.timestamp.time, lost.value.timestamp.replica_id.0, crate::lattice::obs(&va), crate::lattice::obs(&vb)),
+            observed: format!("differs_from={} divergent_buckets={:?} value_hash {:016x} vs {:016x}: the replicas look in sync, anti-entropy never ships field f to B (HGET h f: A={} B={})", da.differs_from(&db), da.divergent_buckets(&db), KeyDigest::new("h", &va).value_hash, KeyDigest::new("h", &vb).value_hash, fa, fb),
+            required: "states that differ in a hash field have different digests (never a false 'in sync')".into(),
+        });
+    }
+    None
+}
+
+/// survey (obligation id ending in "#kinds"): for every CRDT kind and every one-component change, does the value hash see it?
+fn survey_kinds(rng: &mut Rng) -> Option<Found> {
+    let names = ["Lww(live)", "Lww(tombstone)", "Hash", "GCounter", "PNCounter", "GSet", "ORSet"];
+    let mut blind: Vec<String> = Vec::new();
+    let mut seen: Vec<String> = Vec::new();
+    for kind in 0..7u64 {
+        for _ in 0..300 {
+            let d = gen_vald(rng, kind);
+            let (md, what) = mutate_vald(rng, &d);
+            let class: String = format!("{}: {}", names[kind as usize], what.split(|c: char| c.is_ascii_digit() || c == '"' || c == '(').next().unwrap_or("").trim());
+            if seen.contains(&class) { continue; }
+            seen.push(class.clone());
+            let (a, b) = (build_val(rng, &d, 0), build_val(rng, &md, 0));
+            if KeyDigest::new("k", &a).value_hash == KeyDigest::new("k", &b).value_hash {
+                blind.push(format!("{} [A = {} | B: {}]", class, show_vald(&d), what));
+            }
+        }
+    }
+    if blind.is_empty() { return None; }
+    Some(Found { input: format!("{} classes of one-component differences tried (same key, same outer stamp)", seen.len()), observed: format!("KeyDigest::new gives EQUAL value_hash for {} of them: {}", blind.len(), blind.join(" ;; ")), required: "a different value_hash for every observational difference".into() })
+}
+
+fn check_value_coverage(rng: &mut Rng, iters: u64) -> Option<Found> {
+    if let Some(x) = scenario_lost_delta() { return Some(x); }
+    for it in 0..iters {
+        let n = 1 + rng.below(12) as usize;
+        let descs: Vec<(String, ValD)> = (0..n).map(|i| { let kind = if it < 14 && i == 0 { it % 7 } else { rng.below(7) }; (format!("key{}", i), gen_vald(rng, kind)) }).collect();
+        let depth = *rng.pick(&[0usize, 2, 4, 8]);
+        let state = |rng: &mut Rng, ds: &Vec<(String, ValD)>, route: u64| -> HashMap<String, ReplicatedValue> {
+            let content: Content = ds.iter().map(|(k, d)| { let rt = route + rng.below(3); (k.clone(), build_val(rng, d, rt)) }).collect();
+            build(&content, &shuffled(rng, content.len()), route % 2 == 1, 0)
+        };
+        // (1) equal content along different routes: equal digests
+        let s0 = state(rng, &descs, 0);
+        let d0 = StateDigest::from_state(&s0, ReplicaId(1), 1, depth);
+        for route in 1..4u64 {
+            let s1 = state(rng, &descs, route);
+            let d1 = StateDigest::from_state(&s1, ReplicaId(2), 1, depth);
+            if d0.differs_from(&d1) || !d0.divergent_buckets(&d1).is_empty() {
+                let bad = descs.iter().find(|(k, _)| KeyDigest::new(k, &s0[k]).value_hash != KeyDigest::new(k, &s1[k]).value_hash);
+                return Some(Found {
+                    input: format!("two replicas hold observationally equal states of {} keys built along different insertion/merge routes; from_state(depth={}){}", n, depth, bad.map(|(k, d)| format!("; key {:?} = {}", k, show_vald(d))).unwrap_or_default()),
+                    observed: format!("differs_from={} divergent_buckets={:?}{}", d0.differs_from(&d1), d0.divergent_buckets(&d1), bad.map(|(k, _)| format!("; value_hash {:016x} vs {:016x}; A: {:?}; B: {:?}", KeyDigest::new(k, &s0[k]).value_hash, KeyDigest::new(k, &s1[k]).value_hash, s0[k].crdt, s1[k].crdt)).unwrap_or_default()),
+                    required: "observationally equal states give equal digests whatever the insertion or merge order (never a perpetual false 'divergent')".into(),
+                });
+            }
+        }
+        // (2) one observational component of one value differs: different digests, and exactly that key's bucket diverges
+        let j = if it < 14 { 0 } else { rng.below(n as u64) as usize };
+        let (md, what) = mutate_vald(rng, &descs[j].1);
+        let mut descs2 = descs.clone();
+        descs2[j].1 = md.clone();
+        let route2 = rng.below(4);
+        let s2 = state(rng, &descs2, route2);
+        let d2 = StateDigest::from_state(&s2, ReplicaId(2), 1, depth);
+        let key = &descs[j].0;
+        let kb = KeyDigest::new(key, &s0[key]).bucket(depth);
+        let (ka, kc) = (KeyDigest::new(key, &s0[key]), KeyDigest::new(key, &s2[key]));
+        if !d0.differs_from(&d2) || d0.divergent_buckets(&d2) != vec![kb] || ka.value_hash == kc.value_hash {
+            return Some(Found {
+                input: format!("replica A holds {:?} = {}; replica B holds the same {} keys except: {}; from_state(depth={})", key, show_vald(&descs[j].1), n, what, depth),
+                observed: format!("differs_from={} divergent_buckets={:?} value_hash {:016x} vs {:016x}", d0.differs_from(&d2), d0.divergent_buckets(&d2), ka.value_hash, kc.value_hash),
+                required: format!("different digests: differs_from == true and divergent_buckets == [{}] (never a false 'in sync')", kb),
+            });
+        }
+    }
+    None
+}
+
 pub fn search(_pid: &str, oid: &str, seed: u64) -> Option<Found> {
     let mut rng = Rng::new(seed + 18);
     let f = oid.split('/').nth(1).unwrap_or("");
     // the sub-battery closest to the refuted obligation first, then everything
+    if oid.ends_with("#kinds") { return survey_kinds(&mut rng); }
+    if oid.starts_with("digest_value") || f.starts_with("KeyDigest::new") { if let Some(x) = check_value_coverage(&mut rng, 400) { return Some(x); } }
     if f.starts_with("MerkleNode") || f.contains("bucket_order") || f.contains("canonical") { if let Some(x) = check_node_perm(&mut rng, 300) { return Some(x); } }
     if f.starts_with("StateDigest") { if let Some(x) = check_equal_states(&mut rng, 30) { return Some(x); } if let Some(x) = check_unequal_states(&mut rng, 100) { return Some(x); } }
     if f.starts_with("KeyDigest::bucket") { if let Some(x) = check_bucket_range(&mut rng) { return Some(x); } }
@@ -286,5 +534,6 @@ pub fn search(_pid: &str, oid: &str, seed: u64) -> Option<Found> {
     if let Some(x) = check_node_perm(&mut rng, 600) { return Some(x); }
     if let Some(x) = check_equal_states(&mut rng, 60) { return Some(x); }
     if let Some(x) = check_unequal_states(&mut rng, 200) { return Some(x); }
+    if let Some(x) = check_value_coverage(&mut rng, 300) { return Some(x); }
     None
 }
